@@ -21,7 +21,7 @@ pub mod a1 {
       r4(v0, v1) <-- r5(v0, v1), r5(v0, v2);
       r4((v0 + 1), v2) <-- for v0 in [2, 2], r3(v1, v0), r5(((*v1) + 1), v1), r1(v2, ((*v1) + 1)), if (v0 < 6);
       r1(3, v0) <-- for v0 in [1, 3];
-      r6(v0) <-- r5(v0, v1), agg v21 = sum(v20) in r4(v20, 1);
+      r6(v0) <-- r5(v0, v1), agg v21 = sum(v20) in r4(v20, _);
    }
    pub struct Inst { p: Prog, pool: Option<ascent::rayon::ThreadPool> }
    pub fn make(pool: Option<usize>) -> Box<dyn Driver> {
@@ -44,6 +44,7 @@ pub mod a1 {
          Some(())
       }
       fn run(&mut self) { match &self.pool { Some(pl) => { let p = &mut self.p; pl.install(|| p.run()) }, None => self.p.run() } }
+      fn run_here(&mut self) { self.p.run() }
       fn run_timeout(&mut self, k: usize) -> Option<bool> { let _ = k; None }
       fn dump(&self) -> String { vec![dump_rel(0, self.p.r0.iter().map(Row::render).collect()), dump_rel(1, self.p.r1.iter().map(Row::render).collect()), dump_rel(2, self.p.r2.iter().map(Row::render).collect()), dump_rel(3, self.p.r3.iter().map(Row::render).collect()), dump_rel(4, self.p.r4.iter().map(Row::render).collect()), dump_rel(5, self.p.r5.iter().map(Row::render).collect()), dump_rel(6, self.p.r6.iter().map(Row::render).collect())].join(" | ") }
       fn iters(&self) -> String { format!("iters {}", self.p.scc_iters.iter().map(|x| x.to_string()).collect::<Vec<_>>().join(" ")) }
@@ -69,7 +70,7 @@ pub mod a9 {
       r2(v0, v0) <-- if let Some(v0) = Some(0);
       r0(3) <-- r2(v0, v1), r0(v1);
       r1(v0, ((*v0) + 1)) <-- r0(v0), if ((*v0) < 6);
-      r4(v0) <-- r1(v0, v1), agg v21 = max(v20) in r2(v20, _);
+      r4(v1) <-- r1(v0, v1), agg v21 = max(v20) in r2(v20, _);
    }
    pub struct Inst { p: Prog, pool: Option<ascent::rayon::ThreadPool> }
    pub fn make(pool: Option<usize>) -> Box<dyn Driver> {
@@ -90,6 +91,7 @@ pub mod a9 {
          Some(())
       }
       fn run(&mut self) { match &self.pool { Some(pl) => { let p = &mut self.p; pl.install(|| p.run()) }, None => self.p.run() } }
+      fn run_here(&mut self) { self.p.run() }
       fn run_timeout(&mut self, k: usize) -> Option<bool> { let _ = k; None }
       fn dump(&self) -> String { vec![dump_rel(0, self.p.r0.iter().map(Row::render).collect()), dump_rel(1, self.p.r1.iter().map(Row::render).collect()), dump_rel(2, self.p.r2.iter().map(Row::render).collect()), dump_rel(3, self.p.r3.iter().map(Row::render).collect()), dump_rel(4, self.p.r4.iter().map(Row::render).collect())].join(" | ") }
       fn iters(&self) -> String { format!("iters {}", self.p.scc_iters.iter().map(|x| x.to_string()).collect::<Vec<_>>().join(" ")) }
